@@ -15,7 +15,7 @@ def gen_value(kind, idx, L):
     tag = "%d" % idx
     if kind in ("byte", "char", "short", "three", "int"):
         return sym_int("v" + tag, 0, LIMIT[kind] - 1)
-    if kind == "bytes":
+    if kind in ("bytes", "bytearray"):
         return sym_bytes("b" + tag, L)
     s = sym_str("s" + tag, L)
     cps = cps_of(s)
@@ -41,6 +41,14 @@ def write(w, kind, v, L, extra):
         w.add_int(v)
     elif kind == "bytes":
         w.add_bytes(v)
+    elif kind == "bytearray":
+        # the caller's own mutable buffer: the writer must have copied it, whatever the caller does with it afterwards
+        buf = bytearray(v)
+        w.add_bytes(buf)
+        buf.reverse()
+        buf.append(0x41)
+        if len(buf) > 1:
+            buf[0] = 0
     elif kind == "string":
         w.add_string(v)
     elif kind == "encoded_string":
@@ -66,7 +74,7 @@ def read_and_check(r, kind, v, L, extra, tag):
         check(r.get_three() == v, tag + "three read back")
     elif kind == "int":
         check(r.get_int() == v, tag + "int read back")
-    elif kind == "bytes":
+    elif kind in ("bytes", "bytearray"):
         check(r.get_bytes(L) == bytearray(v), tag + "raw bytes read back")
     else:
         if kind == "string":
@@ -97,6 +105,13 @@ def sequence(kinds, L, extra):
         write(w, k, v, L, extra)
         i += 1
     data = w.to_bytearray()
+    # the returned bytearray is the caller's: changing it does not reach the writer
+    scratch = w.to_bytearray()
+    scratch.append(0x42)
+    if len(scratch) > 1:
+        scratch[0] = (scratch[0] + 1) % 256
+    check(w.to_bytearray() == data, "to_bytearray hands out a copy")
+    check(len(w) == len(data), "len(writer) equals the number of bytes written")
     r = EoReader(data)
     i = 0
     for k in kinds:
